@@ -7,6 +7,9 @@ G: TLC explores the design model spec/Net.tla (Fetch -> ValidateURL -> Dial -> R
 R: harness/cmd/net expands the cases to URL strings; in-package shims (harness/inpkg/pkg/pdfcpu/{sign,primitives})
    replay them into the REAL guards: real client constructor (inspected), real fetch path, real dial guard, real
    redirect policy, with a fake in-process name server and dialers that record and abort every connect attempt.
+H: history cases (Net_hist*.cfg, variable `hist` of Net.tla): sequences of fetches, each with its own allow-list, that ONE
+   process performs; replayed in fresh processes through the guard inside the client object the real constructor
+   returns; every fetch is judged on its own configuration, whatever the process did before.
 V: the records (requests that reached the transport, connect attempts, inspected client objects; decisions of the
    dial guard installed in the real client objects) are judged by TLC with spec/NetTrace.tla, which recomputes
    Public / AllowListed from the logged bytes."""
@@ -18,11 +21,12 @@ META = {
     "text": "TLC exhaustively explores the fetch state machine Net.tla within the cfg bounds (URL class x resolver answer sequences over "
             "25 address representatives x allow-list spelling x redirect chains), checks the design invariant, and every behaviour is "
             "replayed into the real revocation and image-box guards (real client objects, fetch paths, dial guards, redirect policies); "
-            "every connect attempt the real code makes is judged by TLC (NetTrace.tla) from the logged address/host bytes.",
+            "every connect attempt the real code makes is judged by TLC (NetTrace.tla) from the logged address/host bytes. Histories of 2-3 "
+            "fetches with different allow-lists in one fresh process are explored too, each fetch judged on its own configuration.",
     "note": "Trusted: Net.tla/NetAddr.tla as the meaning of the property; the shims' fakes (in-process name server behind net.Resolver, "
             "recording dialers that abort before connect, synthesized HTTP responses) and Go's net/http client+transport; the flows use "
             "the real dial-guard constructors re-wired with recording fakes, the guard instances inside the real client objects are "
-            "covered by decision probes only; go1.26.8 instead of go1.25.0.",
+            "covered by decision probes and by the history cases (real guard, unknown network name, attempts = first k resolved addresses); go1.26.8 instead of go1.25.0.",
     "technique": "TLA+ design model checked by TLC, behaviours replayed into the real guards, recorded connect attempts validated by TLC",
     "design_ref": "DESIGN.md §5 C30",
 }
